@@ -23,7 +23,7 @@ FACETS = {1: ["xmin", "xmax"], 2: ["xmin", "xmax", "ymin", "ymax"]}
 NORMALS = {1: [(-1,), (1,)], 2: [(-1, 0), (1, 0), (0, -1), (0, 1)]}
 
 
-def bc_ob(cond, d, time, n_pts, m, sel, fshape, form, via="apply", tag_extra=""):
+def bc_ob(cond, d, time, n_pts, m, sel, fshape, form, via="apply", tag_extra="", slice_solution=None):
     """
     cond: 'dirichlet' | 'neumann' | dict facet-> 'dirichlet'/'neumann'/None (form == 'dict')
     sel: slice of outputs the condition applies to; fshape: shape returned by f; n_pts: border rows in the batch
@@ -34,7 +34,8 @@ def bc_ob(cond, d, time, n_pts, m, sel, fshape, form, via="apply", tag_extra="")
     conds = {fa: (cond if isinstance(cond, str) else cond[fa]) for fa in FACETS[d]}
     def build():
         din = d + (1 if time else 0)
-        net = Net("Nb", "nonstatio_PDE" if time else "statio_PDE", din, m)
+        # the selection is relative to the network's *output*, whatever part of it is declared to be the solution
+        net = Net("Nb", "nonstatio_PDE" if time else "statio_PDE", din, m, slice_solution=slice_solution)
         fs = {fa: OpaqueFn(f"f_{fa}" if form == "dict" else "f", [(din,)], fshape) for fa in FACETS[d]}
         def user_f(fa):
             g = fs[fa]
@@ -135,4 +136,20 @@ def obligations(tier):
             obs.append(bc_ob("neumann", d, time, rows, 2, s01, (1,), "global", via="evaluate_int"))
             obs.append(bc_ob("neumann", d, time, rows, 1, s01, (1,), "global", via="evaluate"))
             obs.append(bc_ob(mixed, d, time, rows, 1, s01, (1,), "dict", via="evaluate"))
+            # a network whose declared solution is only a part of its output: the selection still indexes the output
+            for cnd_ in ("dirichlet", "neumann"):
+                for sl in (s01, s12):
+                    obs.append(bc_ob(cnd_, d, time, rows, 2, sl, (1,), "global", tag_extra=",slice_solution=1:2",
+                                     slice_solution=jnp.s_[1:2]))
+            obs.append(bc_ob("dirichlet", d, time, rows, 2, s02, (2,), "global", tag_extra=",slice_solution=1:2",
+                             slice_solution=jnp.s_[1:2]))
+            # per-facet dictionaries with unconditioned facets before / between conditioned ones, the component given as
+            # an int, f returning a scalar: every conditioned facet's int is normalised
+            r2 = max(rows, 2)
+            for none_at in range(len(fac)):
+                dct = {fa: (None if i == none_at else "dirichlet") for i, fa in enumerate(fac)}
+                if tier == "quick" and 0 < none_at < len(fac) - 1 and none_at != 1:
+                    continue
+                obs.append(bc_ob(dct, d, time, r2, 2, s12, (), "dict", via="evaluate_int"))
+            obs.append(bc_ob(skipn, d, time, r2, 2, s12, (), "dict", via="evaluate_int"))
     return obs
